@@ -133,9 +133,12 @@ def _observe(env, cfg, rows, prog=None):
         orows = []
         for v in s.query(V).all():
             nx, pv = v.next, v.previous
-            orows.append(dict(key=[getattr(v, c) for c in kc], tx=getattr(v, txc), index=v.index,
+            key = [getattr(v, c) for c in kc]
+            orows.append(dict(key=key, tx=getattr(v, txc), index=v.index,
                               next=None if nx is None else getattr(nx, txc),
-                              prev=None if pv is None else getattr(pv, txc)))
+                              prev=None if pv is None else getattr(pv, txc),
+                              # a neighbour has to be a version of the same entity, not just carry the right id
+                              same=all(o is None or [getattr(o, c) for c in kc] == key for o in (nx, pv))))
         orows.sort(key=lambda o: (o['key'], o['tx']))
         return dict(vers=vers, rows=orows, exc=None, tbl=tbl)
     except Exception as e:   # the accessors must not raise
@@ -172,8 +175,8 @@ def run_impl(cases):
 
 def encode(case, obs):
     vers = glist(obs['vers'], lambda kv: gpair(glist(kv[0]), glist(kv[1])))
-    rows = glist(obs['rows'], lambda o: '{| or_key := %s; or_tx := %s; or_index := %s; or_next := %s; or_prev := %s |}' % (
-        glist(o['key']), gZ(o['tx']), gnat(o['index']), gopt(o['next']), gopt(o['prev'])))
+    rows = glist(obs['rows'], lambda o: '{| or_key := %s; or_tx := %s; or_index := %s; or_next := %s; or_prev := %s; or_same := %s |}' % (
+        glist(o['key']), gZ(o['tx']), gnat(o['index']), gopt(o['next']), gopt(o['prev']), gbool(o['same'])))
     return '{| c8_validity := %s; c8_e2e := %s; c8_tbl := %s; c8_vers := %s; c8_rows := %s; c8_exc := %s |}' % (
         gbool(case['cfg']['strategy'] == 'validity'), gbool('prog' in case), T.gtable(obs['tbl']), vers, rows,
         gbool(obs['exc'] is not None))
